@@ -40,7 +40,7 @@ fn strip_prints(s: &Statement) -> Statement {
         other => other.clone(),
     }
 }
-fn strip_prog(p: &Prog) -> Prog {
+pub fn strip_prog(p: &Prog) -> Prog {
     Prog { defs: p.defs.iter().map(|d| axcut::syntax::Def { name: d.name.clone(), context: d.context.clone(), body: strip_prints(&d.body) }).collect(), types: p.types.clone(), max_id: p.max_id }
 }
 
@@ -66,9 +66,9 @@ pub fn cmd_codegen_all(seed: u64, n: usize, out: &mut dyn Write, dirs: &[String]
             Err(e) => { rejected += 1; if std::env::var("VERIF_GEN_DEBUG").is_ok() { eprintln!("gen {g}: {e}"); } }
         }
     }
-    for (k, (name, p)) in gen_axlin::programs(seed, n_ax, &gen_axlin::Cfg { max_args: 5, max_live: 14 }).into_iter().enumerate() {
+    for (k, (name, p)) in gen_axlin::programs(seed, n_ax, &gen_axlin::Cfg { max_args: 5, max_live: 14, ..Default::default() }).into_iter().enumerate() {
         // one in twelve keeps the generator's own (larger) live-variable targets: beyond the RISC-V capacity
-        let p = if k % 12 == 11 { gen_axlin::gen_program(&mut crate::rng::Rng::new(seed.wrapping_mul(7919).wrapping_add(k as u64)), &gen_axlin::Cfg { max_args: 5, max_live: 40 }) } else { p };
+        let p = if k % 12 == 11 { gen_axlin::gen_program(&mut crate::rng::Rng::new(seed.wrapping_mul(7919).wrapping_add(k as u64)), &gen_axlin::Cfg { max_args: 5, max_live: 40, ..Default::default() }) } else { p };
         let p = strip_prog(&p);
         match gen_rvmini::check(&p) {
             Ok(_) => progs.push((format!("axlin:{name}"), p)),
